@@ -221,6 +221,8 @@ class Analysis:
                  on_loop_pre=None, on_loop_entry=None, on_backedge=None):
         self.models = {}   # external function name -> model(an, f, call, state) -> [(value, state)]
         self.inline = True  # analyse same-file loop-free callees in the caller's state
+        self.model_narrowing = False  # True: a narrowing integer cast yields an unknown unless the value provably fits
+        self.inline_also = set()  # names of loop-free callees of other files to analyse in the caller's state too
         self.on_index = None  # on_index(f, idx node, base key, index form, state)
         self.param_alias = {}  # record name -> canonical name for pointer parameters of that record type
         self.on_loop_pre = on_loop_pre
@@ -365,6 +367,26 @@ class Analysis:
 
     # -- expressions: list of (linear form, state) --------------------------------
     def eval(self, f, e, st):
+        # a narrowing integer conversion keeps the value only where the state proves that it fits
+        n0 = e
+        while isinstance(n0, dict) and n0.get("k") == "cast" and not n0.get("narrow"):
+            n0 = n0["e"]
+        if isinstance(n0, dict) and n0.get("k") == "cast" and n0.get("narrow") and self.model_narrowing:
+            bits = int(n0.get("bits", 64))
+            out = []
+            for v, s1 in self.eval(f, n0["e"], st):
+                if n0.get("uns"):
+                    lo, hi = 0, 2 ** bits - 1
+                else:
+                    lo, hi = -(2 ** (bits - 1)), 2 ** (bits - 1) - 1
+                if s1.entails_le(lsub(v, lconst(hi))) and s1.entails_le(lsub(lconst(lo), v)):
+                    out.append((v, s1))
+                else:
+                    r = self.fresh(s1, "narrow%d" % bits, False)
+                    s1.cons.append(("le", lsub(r, lconst(hi))))
+                    s1.cons.append(("le", lsub(lconst(lo), r)))
+                    out.append((r, s1))
+            return out
         e = ir.strip(e)
         if not isinstance(e, dict):
             return [(self.fresh(st, "?", False), st)]
@@ -551,7 +573,7 @@ class Analysis:
     def call(self, f, e, st):
         fn = e.get("fn") or ""
         g = self.prog.resolve(fn, f) if fn else None
-        if self.inline and g is not None and g is not f and g.blocks and g.file == f.file and not paths.natural_loops(g) and len(g.blocks) <= 40:
+        if self.inline and g is not None and g is not f and g.blocks and (g.file == f.file or fn in self.inline_also) and not paths.natural_loops(g) and len(g.blocks) <= 40:
             # evaluate arguments left to right, then run the callee here
             states = [([], st)]
             for a in e.get("args", []):
